@@ -13,6 +13,9 @@
 use crate::util::*;
 use linfa::prelude::*;
 use ndarray::{Array1, Array2};
+#[path = "c05_forms.rs"]
+mod forms;
+use forms::CmLabel;
 use std::collections::BTreeSet;
 use std::fmt::Display;
 use std::panic::{catch_unwind, AssertUnwindSafe};
@@ -46,7 +49,7 @@ fn parse_cm<A: Display>(cm: &ConfusionMatrix<A>) -> (Vec<String>, Vec<Vec<u64>>)
 struct CmObs {
     members: Vec<String>,
     cells: Vec<Vec<u64>>,
-    scores: [f32; 6], // acc prec rec f1 fh mcc
+    scores: [f32; 7], // acc prec rec f1 fh mcc f2
     ova: Vec<Vec<Vec<u64>>>,
     ovo: Vec<Vec<Vec<u64>>>,
     ovap: Vec<f32>,
@@ -56,7 +59,7 @@ struct CmObs {
 impl CmObs {
     fn line(&self) -> String {
         format!(
-            "ok members={} cells={} acc={} prec={} rec={} f1={} fh={} mcc={} ova={} ovo={} ovap={} ovar={} ovaf={}",
+            "ok members={} cells={} acc={} prec={} rec={} f1={} fh={} f2={} mcc={} ova={} ovo={} ovap={} ovar={} ovaf={}",
             self.members.join(","),
             list2(self.cells.iter().map(|r| r.iter()), |x| x.to_string()),
             h32c(self.scores[0]),
@@ -64,6 +67,7 @@ impl CmObs {
             h32c(self.scores[2]),
             h32c(self.scores[3]),
             h32c(self.scores[4]),
+            h32c(self.scores[6]),
             h32c(self.scores[5]),
             list3(self.ova.iter().map(|m| m.iter().map(|r| r.iter())), |x| x.to_string()),
             list3(self.ovo.iter().map(|m| m.iter().map(|r| r.iter())), |x| x.to_string()),
@@ -74,10 +78,8 @@ impl CmObs {
     }
 }
 
-fn observe_cm<L: linfa::dataset::Label + Display>(pred: &[L], truth: &[L], tok: &dyn Fn(&L) -> String) -> Result<CmObs, String> {
-    let p = Array1::from(pred.to_vec());
-    let t = Array1::from(truth.to_vec());
-    let cm = match p.confusion_matrix(&t) {
+fn observe_cm<L: CmLabel>(form: usize, pred: &[L], truth: &[L], tok: &dyn Fn(&L) -> String) -> Result<CmObs, String> {
+    let cm = match forms::call_cm(form, pred, truth) {
         Ok(cm) => cm,
         Err(linfa::Error::MismatchedShapes(_, _)) => return Err("err MismatchedShapes".into()),
         Err(e) => return Err(format!("err {:?}", e)),
@@ -93,7 +95,7 @@ fn observe_cm<L: linfa::dataset::Label + Display>(pred: &[L], truth: &[L], tok: 
     Ok(CmObs {
         members,
         cells,
-        scores: [cm.accuracy(), cm.precision(), cm.recall(), cm.f1_score(), cm.f_score(0.5), cm.mcc()],
+        scores: [cm.accuracy(), cm.precision(), cm.recall(), cm.f1_score(), cm.f_score(0.5), cm.mcc(), cm.f_score(2.0)],
         ova: ova_cms.iter().map(|c| parse_cm(c).1).collect(),
         ovo: ovo_cms.iter().map(|c| parse_cm(c).1).collect(),
         ovap: ova_cms.iter().map(|c| c.precision()).collect(),
@@ -118,7 +120,7 @@ fn fbeta(beta: f64, p: f64, r: f64) -> f64 {
 }
 
 /// first-principles oracle for the confusion matrix and everything derived from it
-fn oracle_cm<L: Ord + Clone + Eq>(ctx: &mut Ctx, pred: &[L], truth: &[L], tok: &dyn Fn(&L) -> String, o: &CmObs) {
+fn oracle_cm<L: Ord + Clone + Eq>(ctx: &mut Ctx, prefix: &str, pred: &[L], truth: &[L], tok: &dyn Fn(&L) -> String, o: &CmObs) {
     let n = pred.len();
     let set: BTreeSet<&L> = pred.iter().chain(truth.iter()).collect();
     let mut cs: Vec<&L> = set.into_iter().collect();
@@ -127,7 +129,7 @@ fn oracle_cm<L: Ord + Clone + Eq>(ctx: &mut Ctx, pred: &[L], truth: &[L], tok: &
     }
     let k = cs.len();
     let kc = if k == 2 { "binary" } else if k < 2 { "single" } else { "multi" };
-    let class = format!("cm:classes={}", kc);
+    let class = format!("{}:classes={}", prefix, kc);
     let want_members: Vec<String> = cs.iter().map(|l| tok(l)).collect();
     ctx.require(o.members == want_members, "members_sorted_union", &class, || format!("members {:?}, want {:?}", o.members, want_members));
     if o.members != want_members {
@@ -176,6 +178,7 @@ fn oracle_cm<L: Ord + Clone + Eq>(ctx: &mut Ctx, pred: &[L], truth: &[L], tok: &
     ctx.require(close(o.scores[2] as f64, r, 1e-5), "recall_documented", &class, || format!("recall {} want {}", o.scores[2], r));
     ctx.require(close(o.scores[3] as f64, fbeta(1.0, p, r), 1e-5), "f_beta", &class, || format!("f1 {} want {}", o.scores[3], fbeta(1.0, p, r)));
     ctx.require(close(o.scores[4] as f64, fbeta(0.5, p, r), 1e-5), "f_beta", &class, || format!("f0.5 {} want {}", o.scores[4], fbeta(0.5, p, r)));
+    ctx.require(close(o.scores[6] as f64, fbeta(2.0, p, r), 1e-5), "f_beta", &class, || format!("f2 {} want {}", o.scores[6], fbeta(2.0, p, r)));
     for c in 0..k {
         let (pc, rc) = (pb(&ova_want[c]), rb(&ova_want[c]));
         ctx.require(close(o.ovap[c] as f64, pc, 1e-5) && close(o.ovar[c] as f64, rc, 1e-5) && close(o.ovaf[c] as f64, fbeta(1.0, pc, rc), 1e-5), "one_vs_all_scores", &class, || {
@@ -202,25 +205,36 @@ fn same_obs(a: &CmObs, b: &CmObs) -> bool {
     a.line() == b.line()
 }
 
-fn op_cm<L: linfa::dataset::Label + Display>(em: &mut Em, ty: &str, kind: &str, pred: Vec<L>, truth: Vec<L>, perm: Vec<usize>, tok: &dyn Fn(&L) -> String) {
-    let op = format!("cm ty={} p={} t={}", ty, list(pred.iter(), |x| tok(x)), list(truth.iter(), |x| tok(x)));
-    em.count(&format!("cm:{}", kind));
+/// `form` 0 is the plain `Array1.confusion_matrix(&Array1)` call (op `cm`); every other calling form
+/// (op `cmf form=k`) has the same model and the same oracle: the matrix is a function of the
+/// (prediction, truth) label vectors only, whatever container carries them
+fn op_cm<L: CmLabel>(em: &mut Em, form: usize, ty: &str, kind: &str, pred: Vec<L>, truth: Vec<L>, perm: Vec<usize>, tok: &dyn Fn(&L) -> String) {
+    let args = format!("ty={} p={} t={}", ty, list(pred.iter(), |x| tok(x)), list(truth.iter(), |x| tok(x)));
+    let op = if form == 0 { format!("cm {}", args) } else { format!("cmf form={} {}", form, args) };
+    let prefix = if form == 0 { "cm".to_string() } else { format!("cmf:{}", forms::CM_FORM_NAMES[form]) };
+    em.count(&format!("{}:{}", if form == 0 { "cm" } else { "cmf" }, kind));
+    if form != 0 {
+        em.count(&format!("cmf:form={}", forms::CM_FORM_NAMES[form]));
+    }
     let valid = pred.len() == truth.len() && !pred.is_empty();
-    let class = format!("cm:{}", kind);
+    let class = format!("{}:{}", prefix, kind);
     let body = |ctx: &mut Ctx| {
-        let o = match observe_cm(&pred, &truth, tok) {
+        let o = match observe_cm(form, &pred, &truth, tok) {
             Ok(o) => o,
             Err(e) => return e,
         };
         if valid {
-            oracle_cm(ctx, &pred, &truth, tok, &o);
+            oracle_cm(ctx, &prefix, &pred, &truth, tok, &o);
             // one permutation applied to predictions and truths together
             let pp: Vec<L> = perm.iter().map(|i| pred[*i].clone()).collect();
             let tt: Vec<L> = perm.iter().map(|i| truth[*i].clone()).collect();
-            match observe_cm(&pp, &tt, tok) {
-                Ok(o2) => ctx.require(same_obs(&o, &o2), "perm_invariant", "cm", || format!("permuted input {:?} gives {} instead of {}", perm, o2.line(), o.line())),
-                Err(e) => ctx.fail("perm_invariant", "cm", format!("permuted input fails: {}", e)),
+            match observe_cm(form, &pp, &tt, tok) {
+                Ok(o2) => ctx.require(same_obs(&o, &o2), "perm_invariant", &prefix, || format!("permuted input {:?} gives {} instead of {}", perm, o2.line(), o.line())),
+                Err(e) => ctx.fail("perm_invariant", &prefix, format!("permuted input fails: {}", e)),
             }
+        } else if pred.len() == truth.len() {
+            // n = 0: an empty matrix; cells (none) sum to 0 = n
+            ctx.require(o.members.is_empty() && o.cells.is_empty() && o.ova.is_empty() && o.ovo.is_empty(), "cells_sum_n", &format!("{}:classes=none", prefix), || format!("no samples but {}", o.line()));
         }
         o.line()
     };
@@ -233,7 +247,8 @@ fn op_cm<L: linfa::dataset::Label + Display>(em: &mut Em, ty: &str, kind: &str, 
 
 const STR_LABELS: [&str; 8] = ["a", "b", "B", "ab", "10", "9", "Zz", "\u{e9}"];
 
-fn cm_dispatch(em: &mut Em, rng: &mut Rng, kind: &str, pred: Vec<usize>, truth: Vec<usize>, variant: usize) {
+/// `variant`: 0 usize, 1 bool (alphabet <= 2, else usize), 2 String, 3 &'static str
+fn cm_dispatch(em: &mut Em, rng: &mut Rng, form: usize, kind: &str, pred: Vec<usize>, truth: Vec<usize>, variant: usize) {
     let n = pred.len().min(truth.len());
     let mut perm: Vec<usize> = (0..n).collect();
     rng.shuffle(&mut perm);
@@ -241,16 +256,33 @@ fn cm_dispatch(em: &mut Em, rng: &mut Rng, kind: &str, pred: Vec<usize>, truth: 
     match variant {
         1 if alphabet <= 2 => {
             let f = |v: &Vec<usize>| v.iter().map(|x| *x == 1).collect::<Vec<bool>>();
-            op_cm(em, "n", &format!("{}:bool", kind), f(&pred), f(&truth), perm, &|b: &bool| (*b as u8).to_string());
+            op_cm(em, form, "n", &format!("{}:bool", kind), f(&pred), f(&truth), perm, &|b: &bool| (*b as u8).to_string());
         }
         2 => {
             // a fixed injection of the small alphabet into strings whose byte order differs from the index order
             let off = rng.below(STR_LABELS.len());
             let f = |v: &Vec<usize>| v.iter().map(|x| STR_LABELS[(*x + off) % STR_LABELS.len()].to_string()).collect::<Vec<String>>();
-            op_cm(em, "s", &format!("{}:string", kind), f(&pred), f(&truth), perm, &|s: &String| hexstr(s));
+            op_cm(em, form, "s", &format!("{}:string", kind), f(&pred), f(&truth), perm, &|s: &String| hexstr(s));
         }
-        _ => op_cm(em, "n", &format!("{}:usize", kind), pred, truth, perm, &|x: &usize| x.to_string()),
+        3 => {
+            let off = rng.below(STR_LABELS.len());
+            let f = |v: &Vec<usize>| v.iter().map(|x| STR_LABELS[(*x + off) % STR_LABELS.len()]).collect::<Vec<&'static str>>();
+            op_cm(em, form, "s", &format!("{}:str", kind), f(&pred), f(&truth), perm, &|s: &&'static str| hexstr(s));
+        }
+        _ => op_cm(em, form, "n", &format!("{}:usize", kind), pred, truth, perm, &|x: &usize| x.to_string()),
     }
+}
+
+fn random_cm_pair(rng: &mut Rng) -> (Vec<usize>, Vec<usize>) {
+    let a = 1 + rng.below(6);
+    let big = rng.chance(1, 8);
+    let n = 1 + rng.below(if big { 200 } else { 30 });
+    let shift = if rng.chance(1, 3) { rng.below(3) } else { 0 };
+    let skew = rng.coin();
+    let mut draw = |rng: &mut Rng, s: usize| -> Vec<usize> { (0..n).map(|_| if skew && rng.chance(2, 3) { s } else { s + rng.below(a) }).collect() };
+    let pred = draw(rng, 0);
+    let truth = draw(rng, shift);
+    (pred, truth)
 }
 
 fn gen_cm(em: &mut Em, rng: &mut Rng) {
@@ -270,25 +302,16 @@ fn gen_cm(em: &mut Em, rng: &mut Rng) {
                     c /= a as u64;
                 }
                 let variant = (code % 3) as usize;
-                cm_dispatch(em, rng, &format!("exhaustive:a={}", a), pred, truth, variant);
+                cm_dispatch(em, rng, 0, &format!("exhaustive:a={}", a), pred, truth, variant);
             }
         }
     }
     // random longer vectors, label sets that differ between the two sides, skewed classes
     let reps = if em.thorough() { 12000 } else { 700 };
     for _ in 0..reps {
-        let a = 1 + rng.below(6);
-        let big = rng.chance(1, 8);
-        let n = 1 + rng.below(if big { 200 } else { 30 });
-        let shift = if rng.chance(1, 3) { rng.below(3) } else { 0 };
-        let skew = rng.coin();
-        let mut draw = |rng: &mut Rng, s: usize| -> Vec<usize> {
-            (0..n).map(|_| if skew && rng.chance(2, 3) { s } else { s + rng.below(a) }).collect()
-        };
-        let pred = draw(rng, 0);
-        let truth = draw(rng, shift);
-        let variant = rng.below(3);
-        cm_dispatch(em, rng, "random", pred, truth, variant);
+        let (pred, truth) = random_cm_pair(rng);
+        let variant = rng.below(4);
+        cm_dispatch(em, rng, 0, "random", pred, truth, variant);
     }
     // malformed: lengths differ (MismatchedShapes)
     for _ in 0..20 {
@@ -297,7 +320,53 @@ fn gen_cm(em: &mut Em, rng: &mut Rng) {
         let pred: Vec<usize> = (0..n).map(|_| rng.below(3)).collect();
         let truth: Vec<usize> = (0..m).map(|_| rng.below(3)).collect();
         let (p, t) = if rng.coin() { (pred, truth) } else { (truth, pred) };
-        op_cm(em, "n", "mismatched", p, t, vec![], &|x: &usize| x.to_string());
+        op_cm(em, 0, "n", "mismatched", p, t, vec![], &|x: &usize| x.to_string());
+    }
+    // no samples at all
+    op_cm(em, 0, "n", "empty", Vec::<usize>::new(), vec![], vec![], &|x: &usize| x.to_string());
+    op_cm(em, 0, "s", "empty", Vec::<String>::new(), vec![], vec![], &|s: &String| hexstr(s));
+}
+
+/// every calling form of `confusion_matrix` (arrays by value / reference / view, datasets,
+/// `CountedTargets`, `with_labels` datasets) on asymmetric inputs
+fn gen_cm_forms(em: &mut Em, rng: &mut Rng) {
+    for form in 1..forms::CM_FORMS {
+        // every (prediction, truth) pair over 2 labels up to length 3 and over 3 labels of length 2, 3:
+        // contains every asymmetric 2x2 and 3x3 pattern (e.g. pred=[0,1,1], truth=[0,0,1])
+        for &(a, lo, hi) in &[(2usize, 1usize, 3usize), (3, 2, if em.thorough() { 3 } else { 2 })] {
+            for n in lo..=hi {
+                let total = (a as u64).pow(2 * n as u32);
+                for code in 0..total {
+                    let mut c = code;
+                    let mut pred = vec![];
+                    let mut truth = vec![];
+                    for _ in 0..n {
+                        pred.push((c % a as u64) as usize);
+                        c /= a as u64;
+                        truth.push((c % a as u64) as usize);
+                        c /= a as u64;
+                    }
+                    let variant = ((code + form as u64) % 4) as usize;
+                    cm_dispatch(em, rng, form, &format!("exhaustive:a={}", a), pred, truth, variant);
+                }
+            }
+        }
+        let reps = if em.thorough() { 600 } else { 60 };
+        for _ in 0..reps {
+            let (pred, truth) = random_cm_pair(rng);
+            let variant = rng.below(4);
+            cm_dispatch(em, rng, form, "random", pred, truth, variant);
+        }
+        // lengths differ / no samples
+        for _ in 0..3 {
+            let n = 1 + rng.below(4);
+            let m = n + 1 + rng.below(2);
+            let pred: Vec<usize> = (0..n).map(|_| rng.below(3)).collect();
+            let truth: Vec<usize> = (0..m).map(|_| rng.below(3)).collect();
+            let (p, t) = if rng.coin() { (pred, truth) } else { (truth, pred) };
+            op_cm(em, form, "n", "mismatched", p, t, vec![], &|x: &usize| x.to_string());
+        }
+        op_cm(em, form, "n", "empty", Vec::<usize>::new(), vec![], vec![], &|x: &usize| x.to_string());
     }
 }
 
@@ -939,6 +1008,7 @@ fn gen_pearson(em: &mut Em, rng: &mut Rng) {
 
 pub fn run(em: &mut Em, rng: &mut Rng) {
     gen_cm(em, rng);
+    gen_cm_forms(em, rng);
     gen_roc(em, rng);
     gen_logloss(em, rng);
     gen_reg(em, rng);
